@@ -474,6 +474,70 @@ Proof.
 Qed.
 
 (* ------------------------------------------------------------------------------------ *)
+(* the closed form does not depend on the chamber representative: Weyl-group moves         *)
+(* ------------------------------------------------------------------------------------ *)
+
+Lemma Rabs_mul_comm x y : Rabs (x * y) = Rabs (y * x).
+Proof. now rewrite Rmult_comm. Qed.
+Lemma Rabs_mul_negr x y : Rabs (x * - y) = Rabs (x * y).
+Proof. now rewrite Ropp_mult_distr_r_reverse, Rabs_Ropp. Qed.
+Lemma Rabs_mul_negl x y : Rabs (- x * y) = Rabs (x * y).
+Proof. now rewrite Ropp_mult_distr_l_reverse, Rabs_Ropp. Qed.
+Lemma Rabs_mul_neg2 x y : Rabs (- x * - y) = Rabs (x * y).
+Proof. now rewrite Rmult_opp_opp. Qed.
+
+Lemma weyl_swap_ab a b c : weyl_kappa b a c = weyl_kappa a b c.
+Proof.
+  unfold weyl_kappa.
+  replace (b + a) with (a + b) by ring.
+  replace (b - a) with (- (a - b)) by ring. rewrite cos_neg, sin_neg, Rabs_mul_negr.
+  rewrite (Rabs_mul_comm (sin (2 * b)) (sin (2 * a))). lra.
+Qed.
+
+Lemma weyl_swap_bc a b c : weyl_kappa a c b = weyl_kappa a b c.
+Proof.
+  unfold weyl_kappa.
+  replace (c + b) with (b + c) by ring.
+  replace (c - b) with (- (b - c)) by ring. rewrite cos_neg, sin_neg, Rabs_mul_negr.
+  rewrite (Rabs_mul_comm (sin (2 * c)) (sin (2 * b))). lra.
+Qed.
+
+Lemma weyl_neg_a a b c : weyl_kappa (- a) b c = weyl_kappa a b c.
+Proof.
+  unfold weyl_kappa.
+  replace (2 * - a) with (- (2 * a)) by ring. rewrite sin_neg, !Rabs_mul_negl, Rabs_Ropp.
+  replace (- a + c) with (- (a - c)) by ring. replace (- a - c) with (- (a + c)) by ring.
+  replace (- a + b) with (- (a - b)) by ring. replace (- a - b) with (- (a + b)) by ring.
+  rewrite !cos_neg, !sin_neg, !Rabs_mul_neg2.
+  rewrite (Rabs_mul_comm (cos (a - c))), (Rabs_mul_comm (sin (a - c))), (Rabs_mul_comm (cos (a - b))), (Rabs_mul_comm (sin (a - b))).
+  lra.
+Qed.
+
+Lemma cos_PI2_plus y : cos (PI / 2 + y) = - sin y.
+Proof. rewrite cos_plus, cos_PI2, sin_PI2. ring. Qed.
+Lemma sin_PI2_plus y : sin (PI / 2 + y) = cos y.
+Proof. rewrite sin_plus, cos_PI2, sin_PI2. ring. Qed.
+
+Lemma weyl_shift_a a b c : weyl_kappa (a + PI / 2) b c = weyl_kappa a b c.
+Proof.
+  unfold weyl_kappa.
+  replace (2 * (a + PI / 2)) with (2 * a + PI) by field. rewrite neg_sin, !Rabs_mul_negl, Rabs_Ropp.
+  replace (a + PI / 2 + c) with (PI / 2 + (a + c)) by ring. replace (a + PI / 2 - c) with (PI / 2 + (a - c)) by ring.
+  replace (a + PI / 2 + b) with (PI / 2 + (a + b)) by ring. replace (a + PI / 2 - b) with (PI / 2 + (a - b)) by ring.
+  rewrite !cos_PI2_plus, !sin_PI2_plus, !Rabs_mul_neg2. lra.
+Qed.
+
+Lemma kappa_weyl_symmetry a b c :
+  kappaR (kak_coeffsR b a c) = kappaR (kak_coeffsR a b c) /\
+  kappaR (kak_coeffsR a c b) = kappaR (kak_coeffsR a b c) /\
+  kappaR (kak_coeffsR (- a) b c) = kappaR (kak_coeffsR a b c) /\
+  kappaR (kak_coeffsR (a + PI / 2) b c) = kappaR (kak_coeffsR a b c).
+Proof.
+  rewrite !kappa_weyl. repeat split;
+    [apply weyl_swap_ab|apply weyl_swap_bc|apply weyl_neg_a|apply weyl_shift_a].
+Qed.
+
+(* ------------------------------------------------------------------------------------ *)
 (* kappa >= 1                                                                             *)
 (* ------------------------------------------------------------------------------------ *)
 
